@@ -185,8 +185,85 @@ func (b *boundsRun) equate(v ssa.Value) ssa.Value {
 	if rep, ok := b.loadRep[key]; ok {
 		return rep
 	}
+	// the object comes straight from a constructor that initialises f from one of its
+	// parameters, and this function does not store to f itself: the load is that argument
+	if call, ok := rb.(*ssa.Call); ok {
+		if g := call.Call.StaticCallee(); g != nil && b.P.InModule(g) {
+			if k, ok := ctorFieldParam(g, f); ok && k < len(call.Call.Args) {
+				own := false
+				eachInstr(u.Parent(), func(ins ssa.Instruction) {
+					if st, ok := ins.(*ssa.Store); ok {
+						if fv, _ := fieldOf(st.Addr); fv == f {
+							own = true
+						}
+					}
+				})
+				if !own {
+					rep := b.equate(call.Call.Args[k])
+					b.loadRep[key] = rep
+					return rep
+				}
+			}
+		}
+	}
 	b.loadRep[key] = v
 	return v
+}
+
+// ctorFieldParam: g returns (on every path) the same freshly allocated struct
+// whose field f is stored exactly once, from parameter k, and the object is
+// not handed to anything else inside g.
+func ctorFieldParam(g *ssa.Function, f *types.Var) (int, bool) {
+	var obj *ssa.Alloc
+	for _, r := range returnsOf(g) {
+		if len(r.Results) == 0 {
+			return 0, false
+		}
+		a, ok := r.Results[0].(*ssa.Alloc)
+		if !ok || (obj != nil && obj != a) {
+			return 0, false
+		}
+		obj = a
+	}
+	if obj == nil {
+		return 0, false
+	}
+	k, n := -1, 0
+	for _, r := range referrers(obj) {
+		switch x := r.(type) {
+		case *ssa.Return, *ssa.DebugRef:
+		case *ssa.FieldAddr:
+			fv, _ := fieldOf(x)
+			for _, rr := range referrers(x) {
+				st, ok := rr.(*ssa.Store)
+				if !ok || st.Addr != ssa.Value(x) {
+					if _, isDbg := rr.(*ssa.DebugRef); isDbg {
+						continue
+					}
+					if _, isLoad := rr.(*ssa.UnOp); isLoad {
+						continue
+					}
+					return 0, false
+				}
+				if fv == f {
+					n++
+					if p, ok := st.Val.(*ssa.Parameter); ok {
+						for i, q := range g.Params {
+							if q == p {
+								k = i
+							}
+						}
+					}
+				}
+			}
+		default:
+			return 0, false
+		}
+	}
+	if n != 1 || k < 0 {
+		return 0, false
+	}
+	return k, true
 }
 
 // isStableField: every store to f in module code initialises a fresh object
